@@ -157,6 +157,7 @@ func (rn *runner) stepRt(ctx *core.Ctx, op []string) string {
 	case "rt.req":
 		var req rtpb.RouteReq
 		var dests [][]byte
+		ctx.Annotate(hx(e.self.Bytes()))
 		if ok, _ := fr.next(&req); !ok {
 			ctx.Annotate("X")
 		} else {
@@ -174,6 +175,7 @@ func (rn *runner) stepRt(ctx *core.Ctx, op []string) string {
 	case "rt.resp":
 		var resp rtpb.RouteResp
 		var dests [][]byte
+		ctx.Annotate(hx(e.self.Bytes()))
 		if ok, _ := fr.next(&resp); !ok {
 			ctx.Annotate("X")
 		} else {
